@@ -1,10 +1,36 @@
 (* C16 -- Mixed schedules are identical with and without numba
    Property theorems only: each proof is one application of a lemma proved in Proofs/, followed by Print Assumptions. *)
 From Coq Require Import ZArith List Bool.
-From CS Require TabEq.
-From CS Require Import Actions NAdvance Multistage Exec Sched RunFacts Projections BasicInv MultistageRun TLBridge.
+From CS Require TabEq TabSim MemoCoh.
+From CS Require Import Actions NAdvance Multistage Exec Sched RunFacts Projections BasicInv MultistageRun TLBridge MixBridge.
 Import ListNotations.
 Open Scope Z_scope.
+
+(* the extracted tabulated planner (list of lists, as the numpy array) succeeds and every entry is the canonical plan *)
+Module M_C16_tabulate_planC.
+Import TabSim.
+Theorem C16_tabulate_planC :
+  forall n s : Z,
+         1 <= n ->
+         0 <= s ->
+         exists t : Mixed.table,
+           Mixed.tabulate n s = Actions.Ok t /\
+           (forall ni si : Z,
+            1 <= ni <= n ->
+            1 <= si <= s \/ ni = 1 /\ 0 <= si <= s -> Mixed.tget t ni si = Actions.Ok (MixDP.planC ni si)).
+Proof. exact (@TabSim.tabulate_planC). Qed.
+Print Assumptions C16_tabulate_planC.
+End M_C16_tabulate_planC.
+
+(* ... and so is every answer of the extracted memoised planner: the two paths prescribe the same kind, length and cost *)
+Module M_C16_memo_warm_planC.
+Import MemoCoh.
+Theorem C16_memo_warm_planC :
+  forall n0 s0 m k : Z,
+         1 <= m <= n0 -> Z.min 1 (m - 1) <= k -> Mixed.memo_warm n0 s0 m k = Actions.Ok (MixDP.planC m k).
+Proof. exact (@MemoCoh.memo_warm_planC). Qed.
+Print Assumptions C16_memo_warm_planC.
+End M_C16_memo_warm_planC.
 
 (* the tabulated planner never fails an assertion and every entry equals the memoised planner *)
 Module M_C16_table.
@@ -14,8 +40,9 @@ Theorem C16_table :
          1 <= n ->
          0 <= s ->
          exists t : table,
-           tabulate n s = MixDP.Ok t /\
-           (forall ni si : Z, 1 <= ni <= n -> 1 <= si <= s -> cells t ni si = Some (MixDP.planC ni si)).
+           tabulate n s = Actions.Ok t /\
+           (forall ni si : Z,
+            1 <= ni <= n -> 1 <= si <= s \/ ni = 1 /\ 0 <= si <= s -> cells t ni si = Some (MixDP.planC ni si)).
 Proof. exact (@TabEq.C16_table). Qed.
 Print Assumptions C16_table.
 End M_C16_table.
